@@ -25,6 +25,16 @@
 //! (scenarios, sockets, runner) and `fullo.rs` (timing model + oracle, rule ids `fs-*`). It sees what
 //! the scripted `ConnectionProvider` cannot: which timeout reaches `connect_tcp` and the
 //! multiplexer, `max_active_requests`, TC=1 → TCP over real streams, retries over shared lookups.
+//!
+//! (e) HISTORIES on the full stack — `hist.rs` (scenarios `"mode":"full-history"`, generator,
+//! runner) and `histo.rs` (oracle, alarm minimization): 2–5 sequential lookups on ONE pool, so that
+//! `NameServer` pools and re-uses its connections, with scripted peer-side events on the
+//! ESTABLISHED connections between / during the lookups (idle FIN / RST noticed or not, failing
+//! write, FIN / RST instead of a reply, half a reply, close right after the answer, one-shot UDP
+//! send errors). Per lookup: a server scripted to answer on a FRESH connection within the budget
+//! (dead pooled connection = failed attempt + one reconnect) ⇒ the lookup returns its answer
+//! (`fs-reuse-availability`), by the deadline, and no second request is written to a stream that
+//! already told hickory it is dead (`fs-dead-connection-reused`).
 
 mod full;
 mod fullo;
@@ -177,6 +187,8 @@ fn main() {
         ("fs_hist_avail_sum", 12_000.0),
         ("fs_hist_avail_later_lookup", 15_000.0),
         ("fs_hist_avail_with_dead_pooled_connection", 11_000.0),
+        ("fs_hist_avail_death_surfaces_in_lookup", 5000.0),
+        ("fs_hist_avail_exact_dead_pooled_then_trap_server", 1500.0),
     ] {
         rep.must(name, m(min));
     }
